@@ -20,6 +20,7 @@ import (
 	"math"
 	"os"
 	"path/filepath"
+	"runtime/pprof"
 	"sort"
 	"strconv"
 	"strings"
@@ -293,7 +294,14 @@ func (s *sut) Appender(ctx context.Context) storage.Appender {
 func (s *sut) violf(f string, a ...any) { s.viol = append(s.viol, fmt.Sprintf(f, a...)) }
 
 func newSut(eng *promql.Engine, metrics *rules.Metrics) (*sut, error) {
-	st, err := teststorage.NewWithError(func(o *tsdb.Options) { o.WALSegmentSize = -1 })
+	st, err := teststorage.NewWithError(func(o *tsdb.Options) {
+		// per-case storages: no WAL, small series-map striping, no exemplar ring (none is used);
+		// sample admission and querying are unaffected
+		o.WALSegmentSize = -1
+		o.StripeSize = 64
+		o.EnableExemplarStorage = false
+		o.MaxExemplars = 0
+	})
 	if err != nil {
 		return nil, err
 	}
@@ -565,7 +573,7 @@ func encT(t int64) int64 {
 
 func enc(v int64) int64 {
 	if v <= -encOff || v >= encOff {
-		return 2*encOff + 1 // decodes to an absurd value on the Coq side -> mismatch
+		return 2*encOff - 1 // an absurd value -> mismatch on the Coq side
 	}
 	return v + encOff
 }
@@ -576,7 +584,7 @@ func (p *printer) encVal(v float64) int64 {
 	}
 	if v != math.Trunc(v) || math.IsNaN(v) || math.IsInf(v, 0) || math.Abs(v) >= float64(encOff) {
 		p.s.violf("non-integer sample value %v", v)
-		return 2*encOff + 1
+		return 2*encOff - 1
 	}
 	return enc(int64(v))
 }
@@ -588,6 +596,24 @@ func b2i(b bool) int64 {
 	return 0
 }
 
+// pack one Append call / sample into one primitive integer:
+// t (28 bits) | value+2^20, 0 = marker (21 bits) | error class (2 bits) | label set index
+func (p *printer) pack(li int, code int, v int64, t int64) int64 {
+	if t < 0 || t >= 1<<28 {
+		p.s.violf("timestamp %d outside the transport range", t)
+		t = 1<<28 - 1
+	}
+	if v < 0 || v >= 1<<21 {
+		p.s.violf("value outside the transport range")
+		v = 1<<21 - 1
+	}
+	if li < 0 || li >= 1<<11 {
+		p.s.violf("label set index outside the transport range")
+		li = 1<<11 - 1
+	}
+	return t | v<<28 | int64(code&3)<<49 | int64(li)<<51
+}
+
 func (p *printer) op(o op) string {
 	switch o.Kind {
 	case "raw":
@@ -595,25 +621,27 @@ func (p *printer) op(o op) string {
 		if o.Stale {
 			v = 0
 		}
-		return ints(0, int64(p.idx(o.L)), encT(o.T), v)
+		return ints(0, p.pack(p.idx(o.L), 0, v, o.T))
 	case "load":
-		vs := []int64{1, int64(o.G), encT(o.Off), int64(o.Limit)}
+		vs := []int64{1 + 4*int64(o.G) + 16*int64(o.Limit) + 256*encT(o.Off)}
 		for _, r := range o.Rules {
-			vs = append(vs, int64(r.Name), int64(p.idx(r.Labels)), int64(r.E.Name), int64(r.E.MK), int64(r.E.MV),
-				b2i(r.E.By), int64(r.E.ByMask), enc(r.E.Mul), enc(r.E.Add), b2i(r.E.GT), enc(r.E.GTV))
+			a := int64(r.Name) | int64(p.idx(r.Labels))<<5 | int64(r.E.Name)<<17 | int64(r.E.MK)<<22 | int64(r.E.MV)<<25 |
+				b2i(r.E.By)<<28 | int64(r.E.ByMask)<<29 | b2i(r.E.GT)<<36
+			b := enc(r.E.Mul) | enc(r.E.Add)<<21 | enc(r.E.GTV)<<42
+			vs = append(vs, a, b)
 		}
 		return ints(vs...)
 	case "eval":
-		return ints(2, int64(o.G), encT(o.T))
+		return ints(2 + 4*int64(o.G) + 16*encT(o.T))
 	case "remove":
-		return ints(3, int64(o.G), encT(o.T))
+		return ints(3 + 4*int64(o.G) + 16*encT(o.T))
 	}
 	panic("op kind")
 }
 
 func (p *printer) recs(vs []int64, rs []arec) []int64 {
 	for _, r := range rs {
-		vs = append(vs, int64(p.idxLabels(r.L)), encT(p.s.canonT(r.T)), p.encVal(r.V), int64(r.Code))
+		vs = append(vs, p.pack(p.idxLabels(r.L), r.Code, p.encVal(r.V), p.s.canonT(r.T)))
 	}
 	return vs
 }
@@ -621,12 +649,21 @@ func (p *printer) recs(vs []int64, rs []arec) []int64 {
 func (p *printer) event(e event) string {
 	switch e.Kind {
 	case 0:
-		return ints(0, int64(e.Code))
+		return ints(0 + 4*int64(e.Code))
 	case 1:
-		return ints(p.recs([]int64{1, int64(e.G), int64(e.RI), b2i(e.Has)}, e.Recs)...)
+		return ints(p.recs([]int64{1 + 4*int64(e.G) + 16*b2i(e.Has) + 32*int64(e.RI)}, e.Recs)...)
 	default:
-		return ints(p.recs([]int64{2, int64(e.G)}, e.Recs)...)
+		return ints(p.recs([]int64{2 + 4*int64(e.G)}, e.Recs)...)
 	}
+}
+
+// a label set as one integer: 9 bits per label (k*32 + v + 1), first label lowest
+func packLset(l lset) int64 {
+	var x int64
+	for i := len(l) - 1; i >= 0; i-- {
+		x = x<<9 | int64(l[i][0]*32+l[i][1]+1)
+	}
+	return x
 }
 
 func list(items []string) string {
@@ -1014,6 +1051,13 @@ type desc struct {
 
 func main() {
 	f := gallina.ParseFlags()
+	if pf := os.Getenv("VERIF_C45_PROF"); pf != "" {
+		w, err := os.Create(pf)
+		if err == nil {
+			_ = pprof.StartCPUProfile(w)
+			defer pprof.StopCPUProfile()
+		}
+	}
 	tmp, err := os.MkdirTemp(f.Out, "tsdb")
 	if err != nil {
 		panic(err)
@@ -1110,20 +1154,16 @@ func main() {
 		for _, d := range s.dump() {
 			vs := []int64{int64(p.idxLabels(d.L))}
 			for i := range d.Ts {
-				vs = append(vs, encT(s.canonT(d.Ts[i])), p.encVal(d.Vs[i]))
+				vs = append(vs, p.pack(0, 0, p.encVal(d.Vs[i]), s.canonT(d.Ts[i])))
 			}
 			stStr = append(stStr, ints(vs...))
 		}
 		s.close()
-		var tb []string
-		for _, l := range p.lsets {
-			var vs []int64
-			for _, kv := range l {
-				vs = append(vs, int64(kv[0]), int64(kv[1]))
-			}
-			tb = append(tb, ints(vs...))
+		tb := make([]int64, len(p.lsets))
+		for i, l := range p.lsets {
+			tb[i] = packLset(l)
 		}
-		cf.Add(fmt.Sprintf("mkCase %d\n  %s\n  %s\n  %s\n  %s", id, list(tb), list(opStr), list(evStr), list(stStr)))
+		cf.Add(fmt.Sprintf("mkCase %d\n  %s\n  %s\n  %s\n  %s", id, ints(tb...), list(opStr), list(evStr), list(stStr)))
 		key := strings.Join(opStr, "")
 		if markersOK > 0 && reloads > 0 && !distinct[key] {
 			distinct[key] = true
